@@ -16,6 +16,7 @@ import (
 	"os"
 	"path/filepath"
 	"sort"
+	"strings"
 	"time"
 
 	"golang.org/x/crypto/sha3"
@@ -111,6 +112,7 @@ type Step struct {
 	ErrText   string   `json:"errtext,omitempty"`
 	Skipped   bool     `json:"skipped,omitempty"`
 	Deadlock  bool     `json:"deadlock,omitempty"`
+	Reopen    string   `json:"reopen,omitempty"` // restart: the node could not be reopened (panic / error text); the case ends
 	Best      int      `json:"best"`
 	Finalized int      `json:"fin"`
 	Justified int      `json:"jus"`
@@ -425,8 +427,10 @@ func runOne(w *cl.World, c *Case, base string) (*Result, error) {
 			sub.Unsubscribe()
 			pending = map[int]map[int]bool{}
 			restarts++
-			// the old node's LevelDB may compact in the background while the directory is copied: retry
+			// the old node's LevelDB may compact in the background while the directory is copied: a copy the
+			// database layer cannot open is retried; a node that panics or fails on a readable copy is an observable
 			var err error
+			nodeFailure := ""
 			for attempt := 0; attempt < 8; attempt++ {
 				ndir := fmt.Sprintf("%s_r%d_%d", dir, restarts, attempt)
 				if err = copyDir(curDir, ndir); err == nil {
@@ -436,8 +440,19 @@ func runOne(w *cl.World, c *Case, base string) (*Result, error) {
 					curDir = ndir
 					break
 				}
+				if !strings.Contains(err.Error(), "Error initializing DB") && !strings.Contains(err.Error(), "leveldb") {
+					nodeFailure = err.Error()
+					break
+				}
 				os.RemoveAll(ndir)
 				time.Sleep(25 * time.Millisecond)
+			}
+			if nodeFailure != "" {
+				if len(nodeFailure) > 400 {
+					nodeFailure = nodeFailure[:400]
+				}
+				res.Steps = append(res.Steps, Step{Reopen: nodeFailure})
+				return res, nil
 			}
 			if err != nil {
 				return nil, fmt.Errorf("restart: %v", err)
